@@ -1,2 +1,220 @@
-(* Model/Align.v — executable model; no proofs here. *)
+(* Model/Align.v — package align (align.go, global.go, local.go, levenshtein.go).
+   Scores are Z (integer-valued matrices; float64 is exact below 2^53).
+   The DP table is filled row by row, row-major like the Go loop, and kept as
+   the flat list [blocks] that the tracebacks index with the Go index i.
+   No proofs here. *)
 From Bio Require Import Base.
+From Bio.gen Require Import Tables Lev.
+Open Scope N_scope.
+
+(* type Step byte: Match = 1, Deletion = 2, Insertion = 3; the zero value of a
+   block's step is 0 (no step). *)
+Inductive step : Type := SNone | SMatch | SDel | SIns.
+
+Definition step_code (s : step) : Z :=
+  match s with SNone => 0 | SMatch => 1 | SDel => 2 | SIns => 3 end%Z.
+
+Definition is_del (s : step) : bool := match s with SDel => true | _ => false end.
+Definition is_ins (s : step) : bool := match s with SIns => true | _ => false end.
+
+Definition Gap : byte := 255.
+
+(* SubstitutionMatrix: map[[2]byte]float64 as an association list. *)
+Definition matrix := list ((byte * byte) * Z).
+
+(* m.Get(a, b): panics when the pair is not in the matrix. *)
+Fixpoint get (m : matrix) (a b : byte) : outcome Z :=
+  match m with
+  | [] => Panic
+  | ((x, y), s) :: r => if (x =? a) && (y =? b) then Ok s else get r a b
+  end.
+
+(* Whatever answers Get: a matrix, or the Levenshtein table. *)
+Definition scorer := byte -> byte -> outcome Z.
+
+(* type block struct { score float64; step Step } *)
+Definition cell := (Z * step)%type.
+
+Open Scope Z_scope.
+
+(* decideOnStep *)
+Definition decide (mch del ins : Z) : cell :=
+  if (mch >=? del) && (mch >=? ins) then (mch, SMatch)
+  else if del >=? ins then (del, SDel)
+  else (ins, SIns).
+
+(* Local: if blocks[i].score < 0 { blocks[i] = block{0, 0} };  Global: nothing *)
+Definition clamp_none (c : cell) : cell := c.
+Definition clamp_local (c : cell) : cell := if fst c <? 0 then (0, SNone) else c.
+
+(* score += m.Get(Gap, Gap) when [cond] *)
+Definition add_open (g : scorer) (cond : bool) (s : Z) : outcome Z :=
+  if cond then obind (g Gap Gap) (fun o => Ok (s + o)) else Ok s.
+
+(* Row 0 after the corner: cells (0, 1..).  [left] is blocks[i-1].score,
+   [first] is bi == 1. *)
+Fixpoint row0_tail (g : scorer) (clamp : cell -> cell) (left : Z) (first : bool) (b : bytes)
+  : outcome (list cell) :=
+  match b with
+  | [] => Ok []
+  | y :: b' =>
+    obind (g Gap y) (fun gy =>
+    obind (add_open g first (left + gy)) (fun s =>
+    let c := clamp (s, SIns) in
+    obind (row0_tail g clamp (fst c) false b') (fun rest => Ok (c :: rest))))
+  end.
+
+Definition row0 (g : scorer) (clamp : cell -> cell) (b : bytes) : outcome (list cell) :=
+  obind (row0_tail g clamp 0 true b) (fun r => Ok ((0, SNone) :: r)).
+
+(* The middle of a row: [diag] = blocks[i-bn-1], [up] = blocks[i-bn] (paired
+   with the byte of b), [left] = blocks[i-1]. *)
+Fixpoint row_mid (g : scorer) (clamp : cell -> cell) (x : byte) (diag left : cell)
+  (l : list (byte * cell)) : outcome (list cell) :=
+  match l with
+  | [] => Ok []
+  | (y, up) :: l' =>
+    obind (g x y) (fun sxy =>
+    let mch := fst diag + sxy in
+    obind (g x Gap) (fun gx =>
+    obind (add_open g (negb (is_del (snd up))) (fst up + gx)) (fun del =>
+    obind (g Gap y) (fun gy =>
+    obind (add_open g (negb (is_ins (snd left))) (fst left + gy)) (fun ins =>
+    let c := clamp (decide mch del ins) in
+    obind (row_mid g clamp x up c l') (fun rest => Ok (c :: rest)))))))
+  end.
+
+(* Row ai >= 1 from row ai-1.  [first] is ai == 1. *)
+Definition next_row (g : scorer) (clamp : cell -> cell) (b : bytes) (first : bool)
+  (prev : list cell) (x : byte) : outcome (list cell) :=
+  match prev with
+  | [] => Panic                               (* unreachable: rows have bn >= 1 cells *)
+  | p0 :: ups =>
+    obind (g x Gap) (fun gx =>
+    obind (add_open g first (fst p0 + gx)) (fun s =>
+    let c0 := clamp (s, SDel) in
+    obind (row_mid g clamp x p0 c0 (combine b ups)) (fun rest => Ok (c0 :: rest))))
+  end.
+
+(* All rows after [prev], in order. *)
+Fixpoint rows_from (g : scorer) (clamp : cell -> cell) (b : bytes) (first : bool)
+  (prev : list cell) (a : bytes) : outcome (list (list cell)) :=
+  match a with
+  | [] => Ok []
+  | x :: a' =>
+    obind (next_row g clamp b first prev x) (fun r =>
+    obind (rows_from g clamp b false r a') (fun rest => Ok (r :: rest)))
+  end.
+
+(* blocks, row-major, as a list of an rows of bn cells. *)
+Definition table (g : scorer) (clamp : cell -> cell) (a b : bytes) : outcome (list (list cell)) :=
+  obind (row0 g clamp b) (fun r0 =>
+  obind (rows_from g clamp b true r0 a) (fun rest => Ok (r0 :: rest))).
+
+Definition blocks_of (g : scorer) (clamp : cell -> cell) (a b : bytes) : outcome (list cell) :=
+  obind (table g clamp a b) (fun t => Ok (concat t)).
+
+(* one traceback move: the new index *)
+Definition move (bn i : Z) (s : step) : Z :=
+  match s with
+  | SMatch => i - (bn + 1)
+  | SDel => i - bn
+  | SIns => i - 1
+  | SNone => i                       (* no case of the switch applies *)
+  end.
+
+(* traceAlignmentSteps: for i > 0 {...}; if i < 0 { panic("bad i") }.
+   The steps are consed, which is the final reversal.  Every move with a real
+   step decreases i, so [length blocks] iterations suffice; a block with step 0
+   at i > 0 would make the Go loop spin forever: fuel runs out, Panic. *)
+Fixpoint trace_g (fuel : nat) (blocks : list cell) (bn i : Z) (acc : list step)
+  : outcome (list step) :=
+  if i <=? 0 then (if i <? 0 then Panic else Ok acc)
+  else match fuel with
+       | O => Panic
+       | S f =>
+         match nth_error blocks (Z.to_nat i) with
+         | None => Panic                      (* index out of range *)
+         | Some (_, st) => trace_g f blocks bn (move bn i st) (st :: acc)
+         end
+       end.
+
+Definition last_score (blocks : list cell) : outcome Z :=
+  match nth_error blocks (Nat.pred (length blocks)) with
+  | Some c => Ok (fst c)
+  | None => Panic
+  end.
+
+(* Global(a, b, m) *)
+Definition global_g (g : scorer) (a b : bytes) : outcome (list step * Z) :=
+  obind (blocks_of g clamp_none a b) (fun blocks =>
+  let bn := Z.of_nat (length b) + 1 in
+  obind (trace_g (length blocks) blocks bn (Z.of_nat (length blocks) - 1) []) (fun steps =>
+  obind (last_score blocks) (fun s => Ok (steps, s)))).
+
+Definition global (m : matrix) (a b : bytes) : outcome (list step * Z) := global_g (get m) a b.
+
+(* argmax: the first index holding the maximum (strict >). *)
+Fixpoint argmax_from (l : list cell) (idx imax : Z) (best : Z) : Z * Z :=
+  match l with
+  | [] => (imax, best)
+  | c :: r => if fst c >? best then argmax_from r (idx + 1) idx (fst c)
+              else argmax_from r (idx + 1) imax best
+  end.
+
+Definition argmax (blocks : list cell) : Z * Z :=
+  match blocks with
+  | [] => (0, 0)                                (* unreachable: an*bn >= 1 *)
+  | c :: _ => argmax_from blocks 0 0 (fst c)
+  end.
+
+(* the loop of traceAlignmentStepsLocal; returns (steps, last) *)
+Fixpoint trace_l (fuel : nat) (blocks : list cell) (bn i last : Z) (acc : list step)
+  : outcome (list step * Z) :=
+  if i <=? 0 then (if i <? 0 then Panic else Ok (acc, last))
+  else match fuel with
+       | O => Panic
+       | S f =>
+         match nth_error blocks (Z.to_nat i) with
+         | None => Panic
+         | Some (s, st) =>
+           if s <? 0 then Panic                 (* "bad score" *)
+           else if s =? 0 then Ok (acc, last)   (* break; i > 0 here *)
+           else trace_l f blocks bn (move bn i st) i (st :: acc)
+         end
+       end.
+
+(* Local(a, b, m): (steps, ai, bi, score) *)
+Definition local_g (g : scorer) (a b : bytes) : outcome (list step * Z * Z * Z) :=
+  obind (blocks_of g clamp_local a b) (fun blocks =>
+  let bn := Z.of_nat (length b) + 1 in
+  let '(imax, smax) := argmax blocks in
+  obind (trace_l (length blocks) blocks bn imax imax []) (fun '(steps, last) =>
+  let '(steps, i, score) := if smax =? 0 then ([], 0, 0) else (steps, last, smax) in
+  Ok (steps, Z.quot i bn - 1, Z.rem i bn - 1, score))).
+
+Definition local (m : matrix) (a b : bytes) : outcome (list step * Z * Z * Z) := local_g (get m) a b.
+
+(* ---- shipped matrices (gen/Tables.v, gen/Lev.v) --------------------------- *)
+Close Scope Z_scope.
+
+(* align.Levenshtein as generated: 256 rows of 256; 99 = missing, 98 = non-integral. *)
+Definition lev_get : scorer := fun a b =>
+  match nth_error lev_tab (N.to_nat a) with
+  | Some row => match nth_error row (N.to_nat b) with
+                | Some z => if (z =? 99)%Z || (z =? 98)%Z then Panic else Ok z
+                | None => Panic
+                end
+  | None => Panic
+  end.
+
+Definition shipped (name : bytes) : option scorer :=
+  let is s := beqb name s in
+  if is [112;97;109;49;50;48] then Some (get pam120_tab)               (* "pam120" *)
+  else if is [112;97;109;49;54;48] then Some (get pam160_tab)          (* "pam160" *)
+  else if is [112;97;109;50;53;48] then Some (get pam250_tab)          (* "pam250" *)
+  else if is [98;108;111;115;117;109;52;53] then Some (get blosum45_tab) (* "blosum45" *)
+  else if is [98;108;111;115;117;109;54;50] then Some (get blosum62_tab) (* "blosum62" *)
+  else if is [98;108;111;115;117;109;56;48] then Some (get blosum80_tab) (* "blosum80" *)
+  else if is [108;101;118] then Some lev_get                           (* "lev" *)
+  else None.
